@@ -87,29 +87,49 @@ Proof.
   apply ddS_all_seen. intros y Hy. apply in_or_app. left. exact Hy.
 Qed.
 
-(* ---- functions refining each other up to repeated results ---- *)
-Definition frel {A} (f g : A -> option (list mst)) : Prop :=
-  forall x r, f x = Some r -> exists r', g x = Some r' /\ dd r r'.
-
-Lemma frel_refl {A} (f : A -> option (list mst)) : frel f f.
-Proof. intros x r E. exists r. split; [exact E|apply dd_refl]. Qed.
-Lemma frel_trans {A} (f g k : A -> option (list mst)) : frel f g -> frel g k -> frel f k.
+(* the elements that remain are elements of the original list *)
+Lemma ddS_in : forall s r r', ddS s r r' -> forall y, In y r' -> In y r.
 Proof.
-  intros H1 H2 x r E. destruct (H1 x r E) as [r1 [E1 D1]]. destruct (H2 x r1 E1) as [r2 [E2 D2]].
-  exists r2. split; [exact E2|eapply dd_trans; eauto].
+  induction 1 as [s|s x r r' H IH|s x r r' Hin H IH]; intros y Hy.
+  - exact Hy.
+  - destruct Hy as [Hy|Hy]; [left; exact Hy|right; apply IH; exact Hy].
+  - right. apply IH. exact Hy.
 Qed.
 
-Lemma obindm_ddS (f g : mst -> option (list mst)) : frel f g ->
-  forall seen xs xs', ddS seen xs xs' -> forall seenO ys,
+Lemma dd_Forall (P : mst -> Prop) r r' : dd r r' -> Forall P r -> Forall P r'.
+Proof.
+  intros Hd Hr. rewrite Forall_forall in *. intros y Hy. apply Hr. eapply ddS_in; eauto.
+Qed.
+
+(* ---- functions refining each other up to repeated results, on the states that satisfy P ---- *)
+Definition frelP {A} (P : A -> Prop) (f g : A -> option (list mst)) : Prop :=
+  forall x r, P x -> f x = Some r -> exists r', g x = Some r' /\ dd r r'.
+Definition frel {A} (f g : A -> option (list mst)) : Prop := frelP (fun _ => True) f g.
+
+Lemma frelP_refl {A} (P : A -> Prop) (f : A -> option (list mst)) : frelP P f f.
+Proof. intros x r _ E. exists r. split; [exact E|apply dd_refl]. Qed.
+Lemma frelP_trans {A} (P : A -> Prop) (f g k : A -> option (list mst)) : frelP P f g -> frelP P g k -> frelP P f k.
+Proof.
+  intros H1 H2 x r Hx E. destruct (H1 x r Hx E) as [r1 [E1 D1]]. destruct (H2 x r1 Hx E1) as [r2 [E2 D2]].
+  exists r2. split; [exact E2|eapply dd_trans; eauto].
+Qed.
+Lemma frel_refl {A} (f : A -> option (list mst)) : frel f f.
+Proof. apply frelP_refl. Qed.
+Lemma frel_trans {A} (f g k : A -> option (list mst)) : frel f g -> frel g k -> frel f k.
+Proof. apply frelP_trans. Qed.
+
+Lemma obindm_ddS (P : mst -> Prop) (f g : mst -> option (list mst)) : frelP P f g ->
+  forall seen xs xs', ddS seen xs xs' -> Forall P xs -> forall seenO ys,
   (forall x0 a, In x0 seen -> f x0 = Some a -> incl a seenO) ->
   obindm f xs = Some ys -> exists ys', obindm g xs' = Some ys' /\ ddS seenO ys ys'.
 Proof.
-  intro Hfg. induction 1 as [s|s x r r' H IH|s x r r' Hin H IH]; intros seenO ys Hinv E.
+  intro Hfg. induction 1 as [s|s x r r' H IH|s x r r' Hin H IH]; intros HP seenO ys Hinv E.
   - cbn [obindm] in *. inversion E; subst. exists []. split; [reflexivity|constructor].
   - cbn [obindm] in E. destruct (f x) as [a|] eqn:Ea; [|discriminate].
     destruct (obindm f r) as [b|] eqn:Eb; [|discriminate]. inversion E; subst.
-    destruct (Hfg x a Ea) as [a' [Ea' Da]].
-    destruct (IH (a ++ seenO) b) as [b' [Eb' Db]]; [|reflexivity|].
+    inversion HP as [|x0 r0 Hpx Hpr]; subst.
+    destruct (Hfg x a Hpx Ea) as [a' [Ea' Da]].
+    destruct (IH Hpr (a ++ seenO) b) as [b' [Eb' Db]]; [|reflexivity|].
     { intros x0 a0 [Hx|Hx] E0.
       - subst x0. rewrite Ea in E0. inversion E0; subst. intros y Hy. apply in_or_app. left. exact Hy.
       - intros y Hy. apply in_or_app. right. eapply Hinv; eauto. }
@@ -117,13 +137,21 @@ Proof.
     apply ddS_app; [eapply ddS_incl; [exact Da|intros y []]|exact Db].
   - cbn [obindm] in E. destruct (f x) as [a|] eqn:Ea; [|discriminate].
     destruct (obindm f r) as [b|] eqn:Eb; [|discriminate]. inversion E; subst.
-    destruct (IH seenO b Hinv eq_refl) as [b' [Eb' Db]]. exists b'. split; [exact Eb'|].
+    inversion HP as [|x0 r0 Hpx Hpr]; subst.
+    destruct (IH Hpr seenO b Hinv eq_refl) as [b' [Eb' Db]]. exists b'. split; [exact Eb'|].
     apply ddS_drop_all; [eapply Hinv; eauto|exact Db].
+Qed.
+
+Lemma obindm_frelP (P : mst -> Prop) (f g : mst -> option (list mst)) : frelP P f g ->
+  forall xs xs' ys, Forall P xs -> dd xs xs' -> obindm f xs = Some ys -> exists ys', obindm g xs' = Some ys' /\ dd ys ys'.
+Proof.
+  intros Hfg xs xs' ys HP Hd E. eapply (obindm_ddS P f g Hfg [] xs xs' Hd HP [] ys); [|exact E].
+  intros x0 a [].
 Qed.
 
 Lemma obindm_frel (f g : mst -> option (list mst)) : frel f g ->
   forall xs xs' ys, dd xs xs' -> obindm f xs = Some ys -> exists ys', obindm g xs' = Some ys' /\ dd ys ys'.
 Proof.
-  intros Hfg xs xs' ys Hd E. eapply (obindm_ddS f g Hfg [] xs xs' Hd [] ys); [|exact E].
-  intros x0 a [].
+  intros Hfg xs xs' ys Hd E. eapply (obindm_frelP (fun _ => True) f g Hfg xs xs' ys); [|exact Hd|exact E].
+  apply Forall_forall. intros; exact I.
 Qed.
